@@ -710,7 +710,22 @@ func (s *sim) forge(id spectypes.OperatorID) *specqbft.SignedMessage {
 			root = sha256.Sum256(data)
 		}
 	}
-	switch r.Intn(8) {
+	switch r.Intn(9) {
+	case 8: // prepared round change whose prepared round is not below its own round, with a fresh prepare quorum
+		rcRound := round + 1
+		dr := rcRound + uint64(r.Intn(2))
+		msg := s.base(specqbft.RoundChangeMsgType, rcRound, root)
+		msg.DataRound = specqbft.Round(dr)
+		var pj []*specqbft.SignedMessage
+		for op := 1; op <= s.w.n; op++ {
+			oid := spectypes.OperatorID(op)
+			if s.mutAny || s.byz[oid] {
+				pj = append(pj, s.sign(oid, s.base(specqbft.PrepareMsgType, dr, root), nil))
+			}
+		}
+		msg.RoundChangeJustification, _ = specqbft.MarshalJustifications(pj)
+		s.stats["byz-rc-prepared-in-the-future"]++
+		return s.sign(id, msg, data)
 	case 0: // proposal (equivocation: a fresh value each time), round 1 or with justifications taken from the air
 		msg := s.base(specqbft.ProposalMsgType, round, root)
 		if round > 1 {
@@ -725,13 +740,16 @@ func (s *sim) forge(id spectypes.OperatorID) *specqbft.SignedMessage {
 			rcs = append(rcs, own)
 			msg.RoundChangeJustification, _ = specqbft.MarshalJustifications(rcs)
 			// if some round change is prepared, re-propose its value and attach its prepares
+			// (or attach the prepares and propose another value all the same: the lock ignored)
 			for _, rc := range rcs {
 				if rc.Message.RoundChangePrepared() && r.Chance(3, 4) {
 					pj, _ := rc.Message.GetRoundChangeJustifications()
 					msg.PrepareJustification, _ = specqbft.MarshalJustifications(pj)
-					if rc.FullData != nil {
+					if rc.FullData != nil && r.Chance(2, 3) {
 						data = rc.FullData
 						msg.Root = rc.Message.Root
+					} else {
+						s.stats["byz-proposal-lock-ignored"]++
 					}
 					break
 				}
